@@ -403,6 +403,7 @@ func replayRPC(args []string) error {
 			return err
 		}
 		dead := false
+		unanswered := 0
 		for li, ln := range lines {
 			if (li+ci)%*stride != 0 && len(ln.Batch) > 1 {
 				continue
@@ -412,9 +413,15 @@ func replayRPC(args []string) error {
 			for _, q := range ln.Batch {
 				req.Queries = append(req.Queries, toPBQuery(dict, q, rng, true))
 			}
+			if unanswered >= 3 {
+				break // every further request of this kind would only wait out its deadline
+			}
 			resp, rerr := srv.query(req)
 			msg := replyOK(dict, ln.Reply, resp, rerr)
-			if msg != "" && ln.MayErr && rerr != nil {
+			if status.Code(rerr) == codes.DeadlineExceeded {
+				unanswered++
+			}
+			if msg != "" && ln.MayErr && rerr != nil && status.Code(rerr) != codes.DeadlineExceeded {
 				msg = "" // rejecting the batch is allowed too
 			}
 			if msg == "" && rerr == nil && ln.Reply.Kind == "response" {
@@ -590,7 +597,7 @@ func recordRPC(args []string) error {
 	}
 	defer srv.stop()
 	w.Emit(map[string]any{"ev": "Setup", "rows": rowsToJSON(rows)})
-	sweep, gsweep := 0, 0
+	sweep, gsweep, timeouts := 0, 0, 0
 	for i := 0; i < *n; i++ {
 		req := &proto.QueryRequest{}
 		for k := rng.Intn(4); k > 0; k-- {
@@ -680,6 +687,7 @@ func recordRPC(args []string) error {
 			reply["kind"] = "rpcerror"
 			if status.Code(rerr) == codes.DeadlineExceeded {
 				reply["kind"] = "timeout" // never answered: matches no reply the specification allows
+				timeouts++
 			}
 		} else {
 			rs := []any{}
@@ -697,7 +705,7 @@ func recordRPC(args []string) error {
 		presp, perr := srv.query(&proto.QueryRequest{Queries: []*proto.Query{{Expr: toPB(dict, &HExpr{Op: "eq", Col: 1, Val: 1}, rng, true, false)}}})
 		ok := perr == nil && len(presp.Results) == 1 && presp.Results[0].TotalCount == 2
 		w.Emit(map[string]any{"ev": "Alive", "up": srv.alive() && ok})
-		if !srv.alive() {
+		if !srv.alive() || timeouts >= 3 {
 			break
 		}
 	}
